@@ -241,11 +241,32 @@ func matchFinding(fs []finding, prop, sig string) *finding {
 		if f.Property != prop || f.Status != "open" {
 			continue
 		}
-		if f.Signature == sig || (strings.HasSuffix(f.Signature, "*") && strings.HasPrefix(sig, strings.TrimSuffix(f.Signature, "*"))) {
+		if globMatch(f.Signature, sig) {
 			return f
 		}
 	}
 	return nil
+}
+
+// globMatch matches sig against a pattern in which * stands for any
+// (possibly empty) sequence of characters.
+func globMatch(pat, s string) bool {
+	parts := strings.Split(pat, "*")
+	if len(parts) == 1 {
+		return pat == s
+	}
+	if !strings.HasPrefix(s, parts[0]) {
+		return false
+	}
+	s = s[len(parts[0]):]
+	for i := 1; i < len(parts)-1; i++ {
+		k := strings.Index(s, parts[i])
+		if k < 0 {
+			return false
+		}
+		s = s[k+len(parts[i]):]
+	}
+	return strings.HasSuffix(s, parts[len(parts)-1])
 }
 
 // ---------------------------------------------------------------- run
